@@ -2,6 +2,10 @@ package parser
 
 import comb "github.com/moorara/algo/parser/combinator"
 
+// MaxRepetition is the largest count accepted in a repetition range {n}, {n,} or {n,m}.
+// A range is expanded into that many copies of the repeated expression.
+const MaxRepetition = 1000
+
 var (
 	escapedChars = []rune{'\\', '|', '.', '?', '*', '+', '(', ')', '[', ']', '{', '}', '$'}
 )
@@ -66,7 +70,10 @@ func toNum(r comb.Result) (comb.Result, bool) {
 
 	var num int
 	for _, r := range l {
-		num = num*10 + r.Val.(int)
+		// Counts beyond the limit are rejected by the mappers; saturating here keeps long digit strings from overflowing.
+		if num <= MaxRepetition {
+			num = num*10 + r.Val.(int)
+		}
 	}
 
 	return comb.Result{
